@@ -151,7 +151,8 @@ fn conservation(out: &mut Outcome, layer: &str, total: f64, cells: usize, skippe
     let (sk, y) = skipped.map(|(a, b)| (a as f64, Some(b))).unwrap_or((0.0, None));
     let tol = if proj { cells as f64 * 0.5e-12 + 1e-9 * n.max(1) as f64 } else { 0.0 };
     out.count("conservation_checked", 1);
-    if (total + sk - n as f64).abs() > tol {
+    // written so that a NaN total fails the comparison
+    if !((total + sk - n as f64).abs() <= tol) {
         out.violate(
             "conservation",
             format!("C10 {layer} mass + skipped != records projection={proj}"),
